@@ -138,7 +138,6 @@ mod internal_metrics;
 use std::{
     fmt,
     io::{self, Write},
-    mem,
     path::{Path, PathBuf},
     sync::Arc,
     thread,
@@ -695,10 +694,19 @@ impl EventBatch {
     }
 
     fn advance(&mut self) {
-        let advanced = mem::take(&mut self.bufs[self.index]);
+        // The buffer is left in place so the batch can be rewound
+        let advanced = self.bufs[self.index].len();
 
         self.index += 1;
-        self.remaining_bytes -= advanced.len();
+        self.remaining_bytes -= advanced;
+    }
+
+    // Move the cursor back to the first event in the batch
+    fn rewind(&mut self) {
+        while self.index > 0 {
+            self.index -= 1;
+            self.remaining_bytes += self.bufs[self.index].len();
+        }
     }
 }
 
@@ -911,6 +919,13 @@ impl Worker {
                         err,
                     )
                 }));
+
+                // The file is about to be dropped, so this is the last chance to make
+                // the events already written to it durable. If they can't be synced then
+                // they're written again, along with the rest of the batch, when it's retried
+                if file.file.flush().is_err() || file.file.sync_all().is_err() {
+                    batch.rewind();
+                }
 
                 return Err(emit_batcher::BatchError::retry(err, batch));
             }
